@@ -135,6 +135,35 @@ class StandardRequestHandler(Elaboratable):
         ]
 
 
+        def dispatch_new_request():
+            """ Moves to the state that handles a newly received setup packet.
+
+            Used in every state: a new SETUP always starts a new control transfer [USB3.2r1: 8.12.2], also if
+            the previous one was abandoned before its status stage (or ended with a STALL in its data stage).
+            """
+            with m.If(setup.received):
+
+                # Select which standard packet we're going to handler.
+                with m.Switch(setup.request):
+
+                    with m.Case(USBStandardRequests.GET_STATUS):
+                        m.next = 'GET_STATUS'
+                    with m.Case(USBStandardRequests.SET_ADDRESS):
+                        m.next = 'SET_ADDRESS'
+                    with m.Case(USBStandardRequests.SET_CONFIGURATION):
+                        m.next = 'SET_CONFIGURATION'
+                    with m.Case(USBStandardRequests.GET_DESCRIPTOR):
+                        m.next = 'GET_DESCRIPTOR'
+                    with m.Case(USBStandardRequests.GET_CONFIGURATION):
+                        m.next = 'GET_CONFIGURATION'
+                    with m.Case(USBStandardRequests.SET_ISOCH_DELAY):
+                        m.next = 'SET_ISOCH_DELAY'
+                    with m.Case(USBStandardRequests.SET_SEL):
+                        m.next = 'SET_SEL'
+                    with m.Default():
+                        m.next = 'UNHANDLED'
+
+
         ##
         ## Handlers.
         ##
@@ -143,29 +172,7 @@ class StandardRequestHandler(Elaboratable):
 
                 # IDLE -- not handling any active request
                 with m.State('IDLE'):
-
-                    # If we've received a new setup packet, handle it.
-                    with m.If(setup.received):
-
-                        # Select which standard packet we're going to handler.
-                        with m.Switch(setup.request):
-
-                            with m.Case(USBStandardRequests.GET_STATUS):
-                                m.next = 'GET_STATUS'
-                            with m.Case(USBStandardRequests.SET_ADDRESS):
-                                m.next = 'SET_ADDRESS'
-                            with m.Case(USBStandardRequests.SET_CONFIGURATION):
-                                m.next = 'SET_CONFIGURATION'
-                            with m.Case(USBStandardRequests.GET_DESCRIPTOR):
-                                m.next = 'GET_DESCRIPTOR'
-                            with m.Case(USBStandardRequests.GET_CONFIGURATION):
-                                m.next = 'GET_CONFIGURATION'
-                            with m.Case(USBStandardRequests.SET_ISOCH_DELAY):
-                                m.next = 'SET_ISOCH_DELAY'
-                            with m.Case(USBStandardRequests.SET_SEL):
-                                m.next = 'SET_SEL'
-                            with m.Default():
-                                m.next = 'UNHANDLED'
+                    dispatch_new_request()
 
 
                 # GET_STATUS -- Fetch the device's status.
@@ -174,17 +181,20 @@ class StandardRequestHandler(Elaboratable):
                     # TODO: handle reporting endpoint stall status
                     # TODO: copy the remote wakeup and bus-powered attributes from bmAttributes of the relevant descriptor?
                     self.handle_simple_data_request(m, 0, length=2)
+                    dispatch_new_request()
 
 
                 # SET_ADDRESS -- The host is trying to assign us an address.
                 with m.State('SET_ADDRESS'):
                     self.handle_register_write_request(m, interface.new_address, interface.address_changed)
+                    dispatch_new_request()
 
 
                 # SET_CONFIGURATION -- The host is trying to select an active configuration.
                 with m.State('SET_CONFIGURATION'):
                     # TODO: stall if we don't have a relevant configuration
                     self.handle_register_write_request(m, interface.new_config, interface.config_changed)
+                    dispatch_new_request()
 
 
                 # GET_DESCRIPTOR -- The host is asking for a USB descriptor -- for us to "self describe".
@@ -205,10 +215,13 @@ class StandardRequestHandler(Elaboratable):
                         m.d.comb += handshake_generator.send_ack.eq(1)
                         m.next = 'IDLE'
 
+                    dispatch_new_request()
+
 
                 # GET_CONFIGURATION -- The host is asking for the active configuration number.
                 with m.State('GET_CONFIGURATION'):
                     self.handle_simple_data_request(m, interface.active_config)
+                    dispatch_new_request()
 
 
                 # SET_ISOCH_DELAY -- The host is trying to inform us of our isochronous delay.
@@ -221,13 +234,15 @@ class StandardRequestHandler(Elaboratable):
                         m.d.comb += self.interface.handshakes_out.send_ack.eq(1)
                         m.next = 'IDLE'
 
+                    dispatch_new_request()
+
 
                 # SET_SEL -- set our System Exit Latencies
                 with m.State('SET_SEL'):
                     # TODO: use the actual latencies once we support USB3 power states
 
                     # ACK the data that's coming in, once we get it; but ignore it for now
-                    data_received = falling_edge_detected(m, interface.rx.valid, domain="ss")
+                    data_received = falling_edge_detected(m, interface.rx.valid, domain="ss") & ~interface.rx_header.setup
                     with m.If(data_received):
                         m.d.comb += self.interface.handshakes_out.send_ack.eq(1)
 
@@ -237,14 +252,19 @@ class StandardRequestHandler(Elaboratable):
                         m.d.comb += self.interface.handshakes_out.send_ack.eq(1)
                         m.next = 'IDLE'
 
+                    dispatch_new_request()
+
 
                 # UNHANDLED -- we've received a request we're not prepared to handle
                 with m.State('UNHANDLED'):
 
                     # When we next have an opportunity to stall, do so, and then return to idle.
-                    data_received = falling_edge_detected(m, interface.rx.valid, domain="ss")
+                    # (The end of a SETUP packet is not OUT data: a new SETUP is never STALLed.)
+                    data_received = falling_edge_detected(m, interface.rx.valid, domain="ss") & ~interface.rx_header.setup
                     with m.If(interface.data_requested | interface.status_requested | data_received):
                         m.d.comb += handshake_generator.send_stall.eq(1)
                         m.next = 'IDLE'
+
+                    dispatch_new_request()
 
         return m
